@@ -16,6 +16,15 @@ HINTS = {
        "line ends, TAB, leading / trailing blanks, upper / lower case, an empty field. As before the visible effect must be a violation of "
        "the property above, the test suite must still pass, and the change must need something specific to manifest. Make your two changes "
        "of two DIFFERENT kinds from this list."),
+ '10': ("Choose changes of two DIFFERENT kinds from this list: (a) something the library RETURNS aliases its internal state (a list, dict, set or "
+        "array it keeps using): a caller who changes the result changes later answers, or the library later changes what it handed out; "
+        "(b) two objects of the same class alive at the same time (two readers, writers, indexes, selectors) influence each other through a "
+        "class attribute, a module global or a mutable default argument; (c) iteration: the same object iterated twice, two iterators of "
+        "one object advanced in turn, or a generator resumed after other calls were made on its object; (d) the TYPE of a numeric argument: "
+        "bool / int / float / numpy scalar (True == 1, numpy.int64(3), 2.0) taken down different paths; (e) an input that is valid but "
+        "empty in one dimension only (no rows but columns, no channels but frames, an empty name, a zero-length record between others). "
+        "As before the visible effect must be a violation of the property above, the test suite must still pass, and the change must need "
+        "something specific to manifest."),
  '9': ("Choose changes of two DIFFERENT kinds from this list: (a) the result depends on the ORDER of two operations or of two inputs "
        "that should commute (A then B against B then A; the same two records, channels, rows, files or options given the other way "
        "round); (b) an optional parameter: the path taken when it is omitted / None / at its default disagrees with the path taken when "
